@@ -3,6 +3,7 @@
 --   T <name> <codename> <bitsize> <signed 0|1> <min> <max>
 --   R <dst> <src> <0|1>        dst:is_type_inrange(src)   (add_typed_val's "no check needed")
 --   L signed|unsigned <names of promote_*_types ladder>
+--   O <ltype> <rtype> <result type of ltype /// rtype on non-constant operands>   (mixed signedness pairs)
 local typedefs = require 'nelua.typedefs'
 local primtypes = typedefs.primtypes
 local names = {}
@@ -25,3 +26,13 @@ local function ladder(l) local r = {} for i, t in ipairs(l) do r[i] = t.name end
 print('L', 'signed', ladder(typedefs.promote_signed_types))
 print('L', 'unsigned', ladder(typedefs.promote_unsigned_types))
 print('N', 'number', primtypes.number.name, 'integer', primtypes.integer.name, 'uinteger', primtypes.uinteger.name)
+local Attr = require 'nelua.attr'
+for _, l in ipairs(names) do
+  for _, r in ipairs(names) do
+    local lt, rt = primtypes[l], primtypes[r]
+    if lt.is_signed ~= rt.is_signed then
+      local t = lt:binary_operator('tdiv', rt, Attr{type = lt}, Attr{type = rt})
+      print('O', l, r, t and t.name or '?')
+    end
+  end
+end
